@@ -852,8 +852,10 @@ class MyPyAstVisitor:
             default_is_none = False
 
             # Get type information for parameter
-            if mypy_type is None:  # pragma: no cover
-                raise ValueError("Argument has no type.")
+            if mypy_type is None:
+                # Mypy does not analyse every function (e.g. unreachable code or functions with @no_type_check), for
+                # those we have no type information
+                pass
             elif isinstance(mypy_type, mp_types.AnyType) and not has_correct_type_of_any(mypy_type.type_of_any):
                 # We try to infer the type through the default value later, if possible
                 pass
